@@ -1,11 +1,12 @@
 """C03 — merge is commutative, associative, idempotent.  Only clause L is decided (DESIGN §5 C03)."""
 from analysis import *  # noqa
 import lww
+from engine import site as engine_site
 
 CONFIGS = ['prod']
 EXPLANATION = (
     'The algebraic laws themselves are NOT decided (they need evaluation of merge over all reachable sets). Decided: '
-    'clauses L and B — B: a timestamp written into a map slot with `insert` must have competed with what the slot held (re-insert of the looked-up value, max-join with it, or a guard against it); L — in OrSWotSet::merge and NodeVersions::merge, wherever two timestamps compete for one key / one '
+    'clauses L, B and M — M: every path through merge merges the peer\'s version stamps;  B: a timestamp written into a map slot with `insert` must have competed with what the slot held (re-insert of the looked-up value, max-join with it, or a guard against it); L — in OrSWotSet::merge and NodeVersions::merge, wherever two timestamps compete for one key / one '
     '(source, origin) stamp and one survives, the guard edge normalises to dropped <= survivor; joins use max, never min. '
     'A resolution that keeps the smaller timestamp makes a.merge(b) and b.merge(a) differ on that key, so L is necessary '
     'for commutativity.')
@@ -23,5 +24,13 @@ def check(ctx):
     ctx.floor('C03.L', 'survivor guards and joins in OrSWotSet::merge', n1, 5)
     nb = lww.check_blind_overwrites(ctx, facts, 'C03.B', [m])
     ctx.floor('C03.B', 'timestamp stores by insert in OrSWotSet::merge', nb, 4)
+    # M: every path through merge also merges the version stamps, after the entry log was replayed
+    vm = [b for b, t in m.calls() if cname(t) == 'datacake_crdt::orswot::NodeVersions::merge']
+    rets = m.return_blocks()
+    good = bool(vm) and m.must_pass([0], vm, rets)
+    ctx.ob('C03.M', 'merge|versions-merged-on-every-path', good, engine_site(m),
+           'every path through merge ends by merging the peer\'s version stamps' if good else
+           'merge can return without merging the peer\'s version stamps (early return / fast path): purge cut-offs and refusals then differ between '
+           'replicas that merged each other, and re-merging is not idempotent')
     n2 = lww.check_bodies(ctx, facts, 'C03.L', [nm], 'versions-merge')
     ctx.floor('C03.L', 'survivor guards in NodeVersions::merge', n2, 1)
